@@ -133,6 +133,25 @@ Theorem C11_par_pure_skips_failures : forall (T St : Type) (solve : T -> option 
 Proof. exact par_pure_skips_failures. Qed.
 Print Assumptions C11_par_pure_skips_failures.
 
+(** the entry points as functions of the caller's arguments: the critical point (hence the temperature grid and
+    the last state) is computed with the default options in BOTH variants; for every caller option [o] they return
+    the same [Ok]/[Err] and the same states *)
+Theorem C11_par_pure_api_order : forall (Opt T St : Type) (default : Opt) (cp : Opt -> option St) (grid : St -> list T)
+  (solve : Opt -> T -> option St -> option St) (o : Opt), guess_independent T St (solve o) ->
+  forall k, 1 <= k -> par_pure_api Opt T St default cp grid solve o k = pure_api Opt T St default cp grid solve o.
+Proof. exact par_pure_api_order. Qed.
+Print Assumptions C11_par_pure_api_order.
+
+Theorem C11_api_same_critical_state : forall (Opt T St : Type) (default : Opt) (cp : Opt -> option St) (grid : St -> list T)
+  (solve : Opt -> T -> option St -> option St) (o : Opt) (k : nat) (d : St),
+  match pure_api Opt T St default cp grid solve o, par_pure_api Opt T St default cp grid solve o k with
+  | Some a, Some b => last a d = last b d
+  | None, None => True
+  | _, _ => False
+  end.
+Proof. exact api_same_critical_state. Qed.
+Print Assumptions C11_api_same_critical_state.
+
 (** with a single chunk no hypothesis on the solver is needed *)
 Theorem C11_par_pure_single_chunk : forall (T St : Type) (solve : T -> option St -> option St)
   (k : nat) (ts : list T) (crit : St), 1 <= k -> length ts <= k ->
